@@ -5,6 +5,8 @@ CONSTANTS
   Mode = "exact"
   AtomicQueue = TRUE
   StaleTimeout = TRUE
+  StaleLists = FALSE
+  ThresholdBefore = TRUE
   InitStates = {"Queued"}
   B <- BLive2
   MaxHist = 0
